@@ -69,6 +69,7 @@ type vConn struct {
 	readsAfterClose, writesAfterClose int
 	// readDelay makes every successful read take this long (virtual): a slow listener
 	readDelay time.Duration
+	readTimes []int64 // virtual instants of the ReadFrom calls
 }
 
 type vEvent struct {
@@ -92,6 +93,7 @@ func (c *vConn) ReadFrom() (ndp.Message, *ipv6.ControlMessage, netip.Addr, error
 	}
 	dc := c.deadlineC
 	rd := c.readDelay
+	c.readTimes = append(c.readTimes, vNow())
 	c.mu.Unlock()
 	if rd > 0 {
 		time.Sleep(rd)
